@@ -67,6 +67,7 @@ FLOORS = {
         "counter_checks": 450,
         "fault_injections": 66,
         "thunk_probes": 66,
+        "binder_form_checks": 250,
     },
     "thorough": {
         "programs": 380,
@@ -82,6 +83,7 @@ FLOORS = {
         "counter_checks": 4000,
         "fault_injections": 600,
         "thunk_probes": 600,
+        "binder_form_checks": 1400,
     },
 }
 TIMEOUT_S = {"quick": 2700, "thorough": 7200}  # watchdog only (shared, loaded machine); budget is ~2 / ~12 min
@@ -145,6 +147,10 @@ def plan(tier, seed):
         )
     for r in range(2 if tier == "quick" else 8):
         cases.append({"kind": "fault_enum", "round": r})
+    # held sample bindings called in different forms (positional / keyword names / shapes): every history of up
+    # to 2 (quick) or 3 (thorough) earlier calls, enumerated completely, before each probe form
+    for r in range(3 if tier == "quick" else 9):
+        cases.append({"kind": "binder_forms", "round": r, "depth": 2 if tier == "quick" else 3, "kseed": int(seed) * 1000 + r})
     return cases
 
 
@@ -681,7 +687,101 @@ def _transform_verdict(ctx, case, name, results, tie_prone):
 def run_case(case, ctx):
     if case["kind"] == "fault_enum":
         return _run_fault_enum(case, ctx)
+    if case["kind"] == "binder_forms":
+        return _run_binder_forms(case, ctx)
     return _run_program(case, ctx)
+
+
+# ---------------------------------------------------------------------------
+# held sample bindings: the result of a seeded call must not depend on which call FORMS the same binding served
+# earlier (positional vs keyword, keyword names of equal arity, other shapes), seeded or unseeded
+# ---------------------------------------------------------------------------
+BINDER_FORMS = ["pos-logits", "kw-logits", "kw-probs", "kw-logits-vec", "kw-probs-vec"]
+
+
+def _run_binder_forms(case, ctx):
+    import itertools
+
+    jax, jnp = _W["jax"], _W["jnp"]
+    from genjax import seed
+    from genjax.pjax import sample_binder
+    import tensorflow_probability.substrates.jax as tfp
+
+    ctx.evaluation()
+    rng = np.random.default_rng([case["kseed"], 66])
+
+    def bern_sampler(key, logits=None, *, probs=None, sample_shape=()):
+        d = tfp.distributions.Bernoulli(logits=logits) if probs is None else tfp.distributions.Bernoulli(probs=probs)
+        return d.sample(seed=key, sample_shape=tuple(sample_shape) + (64,))
+
+    # a value that means very different things as a probability and as a logit
+    v_s = jnp.float32(round(float(rng.uniform(0.55, 0.9)), 3))
+    v_v = jnp.asarray(np.round(rng.uniform(0.55, 0.9, size=3), 3), jnp.float32)
+
+    def call(b, form):
+        if form == "pos-logits":
+            return b(v_s)
+        if form == "kw-logits":
+            return b(logits=v_s)
+        if form == "kw-probs":
+            return b(probs=v_s)
+        if form == "kw-logits-vec":
+            return b(logits=v_v)
+        if form == "kw-probs-vec":
+            return b(probs=v_v)
+        raise ValueError(form)
+
+    key = jax.random.key(int(rng.integers(2**31)))
+    # reference: a fresh binding per form, no history
+    want = {}
+    for form in BINDER_FORMS:
+        b = sample_binder(bern_sampler, name="held_bern")
+        r = ctx.call(lambda: np.asarray(seed(lambda: call(b, form))(key)))
+        if hasattr(r, "brief"):
+            ctx.violation(f"binder-forms|fresh-binding|{form}|raises", {"form": form, **r.brief()})
+            return
+        want[form] = r
+    hists = []
+    for d in range(1, case["depth"] + 1):
+        hists += list(itertools.product(BINDER_FORMS, repeat=d))
+    # deal the histories over the rounds; odd rounds make the earlier calls unseeded (global-counter path)
+    nrounds = 3 if case["depth"] == 2 else 9
+    mine = [h for i, h in enumerate(hists) if i % nrounds == case["round"] % nrounds]
+    for hi, hist in enumerate(mine):
+        for probe in BINDER_FORMS:
+            b = sample_binder(bern_sampler, name="held_bern")
+            unseeded = (hi + case["round"]) % 2 == 1
+            det = {"held_binding": "sample_binder(bernoulli sampler(logits=None, *, probs=None))", "earlier_calls": list(hist),
+                   "earlier_calls_seeded": not unseeded, "probe_call": probe, "scalar": float(v_s), "vector": np.asarray(v_v).tolist()}
+            bad = False
+            for j, form in enumerate(hist):
+                if unseeded:
+                    r = ctx.call(lambda: np.asarray(call(b, form)))
+                else:
+                    r = ctx.call(lambda: np.asarray(seed(lambda: call(b, form))(jax.random.fold_in(key, j + 1))))
+                if hasattr(r, "brief"):
+                    ctx.violation(f"binder-forms|history-call|{form}|raises", {**det, **r.brief()})
+                    bad = True
+                    break
+            if bad:
+                continue
+            for how in ("eager", "jit"):
+                fn = seed(lambda: call(b, probe))  # a new function object: staged again
+                got = ctx.call(lambda: np.asarray((jax.jit(fn) if how == "jit" else fn)(key)))
+                ctx.count("binder_form_checks")
+                if hasattr(got, "brief"):
+                    ctx.violation(f"binder-forms|held-binding|{how}|raises", {**det, **got.brief()})
+                    break
+                if got.shape != want[probe].shape or not np.array_equal(got, want[probe]):
+                    ctx.violation(
+                        "binder-forms|held-binding|result-depends-on-earlier-call-forms",
+                        {**det, "evaluation": how, "mean_got": float(np.mean(got)), "mean_fresh_binding": float(np.mean(want[probe])),
+                         "shape_got": list(got.shape), "shape_fresh": list(want[probe].shape)},
+                    )
+                    break
+        ctx.distinct("nontrivial", ["binder_forms", list(hist)])
+    if case["round"] == 0:
+        ctx.sample({"kind": "binder_forms", "histories": len(mine), "forms": BINDER_FORMS})
 
 
 def _run_fault_enum(case, ctx):
